@@ -36,6 +36,8 @@ def plan(tier, seed):
     for nd in range(1, 4):
         specs.append({"name": "constfunc-%dD" % nd, "kind": "constfunc", "nd": nd, "n": {1: 16, 2: 10, 3: 6}[nd] * (1 if q else 8), "timeout": 1500})
     specs.append({"name": "tridiag", "kind": "tridiag", "n": 150 if q else 3000, "timeout": 900})
+    for b in range(1 if q else 4):
+        specs.append({"name": "ambient-%d" % b, "kind": "ambient", "b": b, "n": 6 if q else 12, "timeout": 2400})
     if not q:
         for nd in range(1, 6):
             specs.append({"name": "asan-kern-%dD" % nd, "kind": "kern", "nd": nd, "b": 99, "n": {1: 40, 2: 30, 3: 16, 4: 8, 5: 4}[nd], "build": "asan", "timeout": 1800})
@@ -46,7 +48,8 @@ def plan(tier, seed):
 
 
 def required(tier):
-    r = {"tridiag-solver": 100, "onestep-const": 25, "onestep-func": 30, "const-vs-func": 20}
+    r = {"tridiag-solver": 100, "onestep-const": 25, "onestep-func": 30, "const-vs-func": 20, "ambient-kernel:implicit_1Dx": 4,
+         "ambient-kernel:implicit_2Dx": 4, "ambient-kernel:implicit_2Dy": 4}
     for nd in range(1, 6):
         for ax in range(nd):
             r["kernel:implicit_%dD%s" % (nd, AX[ax])] = 2
@@ -171,6 +174,8 @@ def run(spec, rec):
         run_onestep(spec, rec, Integration, Numerics)
     elif kind == "constfunc":
         run_constfunc(spec, rec, Integration, Numerics)
+    elif kind == "ambient":
+        run_ambient(spec, rec, dadi)
     elif kind == "tridiag":
         for ci in range(spec["n"]):
             rng = rng_for(seed, "C02tri", ci)
@@ -330,3 +335,43 @@ def run_constfunc(spec, rec, Integration, Numerics):
             Integration.use_delj_trick = old
         if ok1 and ok2:
             rec.close("const-vs-func", relerr(b, a), 1e-11, site=site, tags=tags)
+
+
+def run_ambient(spec, rec, dadi):
+    """library models with time-dependent parameters run under the kernel tap: a sample of the kernel calls they make
+    (real grids, real parameter regimes, real densities) is re-solved by O-scheme"""
+    from vf import taps
+    import dadi.DFE
+    models = [("Demographics1D.growth", dadi.Demographics1D.growth, lambda r: [float(r.uniform(0.3, 4)), float(r.uniform(0.05, 0.3))], 1),
+              ("Demographics1D.bottlegrowth_1d", dadi.Demographics1D.bottlegrowth_1d, lambda r: [float(r.uniform(0.2, 2)), float(r.uniform(0.5, 4)), float(r.uniform(0.05, 0.3))], 1),
+              ("Demographics2D.IM", dadi.Demographics2D.IM, lambda r: [float(r.uniform(0.2, 0.8)), float(r.uniform(0.5, 3)), float(r.uniform(0.5, 3)), float(r.uniform(0.05, 0.2)), float(r.uniform(0, 3)), float(r.uniform(0, 3))], 2),
+              ("Demographics2D.bottlegrowth_split_mig", dadi.Demographics2D.bottlegrowth_split_mig, lambda r: [float(r.uniform(0.2, 2)), float(r.uniform(0.5, 4)), float(r.uniform(0, 3)), float(r.uniform(0.1, 0.3)), float(r.uniform(0.02, 0.08))], 2),
+              ("DemogSelModels.IM_sel", dadi.DFE.DemogSelModels.IM_sel, lambda r: [float(r.uniform(0.2, 0.8)), float(r.uniform(0.5, 3)), float(r.uniform(0.5, 3)), float(r.uniform(0.05, 0.2)), float(r.uniform(0, 3)), float(r.uniform(0, 3)), float(r.uniform(-8, 2)), float(r.uniform(-8, 2))], 2),
+              ("Demographics3D.out_of_africa", dadi.Demographics3D.out_of_africa, lambda r: [1.68, 0.29, 0.13, float(r.uniform(2, 5)), 0.07, float(r.uniform(3, 8)), 3.6, 0.44, 0.28, 1.4, 0.6, 0.36, 0.06], 3)]
+    tap = taps.KernelTap()
+    if not tap.install():
+        rec.note("tap", "not attached")
+        return
+    state = {"n": 0, "tags": None}
+    every = 7
+
+    def sub(ev):
+        if ev["kind"] != "kernel":
+            return
+        state["n"] += 1
+        if state["n"] % every:
+            return
+        ref = scheme.ref_step(ev["before"], ev["grids"], ev["axis"], ev["nu"], ev["ms"], ev["gamma"], ev["h"], ev["dt"], delj_trick=ev["delj"], beta=ev["beta"])
+        rec.close("ambient-kernel:" + ev["name"], relerr(ev["after"], ref), TOL, site=ev["name"], tags=state["tags"])
+    tap.subscribe(sub)
+    for ci in range(spec["n"]):
+        name, f, draw, nd = models[(ci + spec["b"]) % len(models)]
+        rng = rng_for(spec["seed"], "C02amb", spec["b"], ci)
+        p = draw(rng)
+        pts = {1: int(rng.integers(20, 50)), 2: int(rng.integers(12, 24)), 3: int(rng.integers(8, 13))}[nd]
+        if not rec.case("amb-%d-%d" % (spec["b"], ci), {"model": name, "params": p, "pts": pts}, nontrivial=True):
+            continue
+        state["tags"] = {"model": name}
+        rec.noraise("model-returns", lambda: f(p, [4] * nd, pts), site=name, tags=state["tags"])
+    tap.uninstall()
+    rec.note("ambient_kernel_calls", tap.counts)
